@@ -124,6 +124,7 @@ class Sched:
         self.switch_log: list = []
         self.record_focus = record_focus
         self.focus: list[int] = []  # instruction indices of thread 0 lying in rule-management code
+        self.stalled = False
         self.mutfocus: list[int] = []  # ... lying in code that can mutate a module-level container
 
     def _next_quantum(self) -> int:
@@ -186,8 +187,22 @@ class Sched:
                 t.start()
             self.quantum_left = self._next_quantum()
             self.sem[0].release()
-            for t in ts:
-                t.join()
+            # a library that blocks (a lock held by a pre-empted thread) would stall this scheduler: give up on the
+            # schedule when no library instruction is executed for two seconds - never a verdict
+            last, idle = -1, 0
+            while any(t.is_alive() for t in ts):
+                for t in ts:
+                    t.join(0.05 if idle == 0 else 0.5)
+                    if t.is_alive():
+                        break
+                tot = sum(self.count)
+                if tot == last:
+                    idle += 1
+                    if idle >= 5:
+                        self.stalled = True
+                        break
+                else:
+                    last, idle = tot, 0
         finally:
             mon.register_callback(TOOL, mon.events.INSTRUCTION, None)
         return self.results, self.count
